@@ -401,6 +401,9 @@ def _rest(db, rep):
     r8 = rep.rule('r8', 'TYPE-ALGEBRA: Merge is the least upper bound of the specificity order, AreCompatible its existence, CompareTemplated binds every radical to the least upper bound of its arguments', 3)
     type_algebra(db, r8)
 
+    r9 = rep.rule('r9', 'TYPING-RULES: each set-theoretic construct, evaluated over all operand-type vectors of a universe of typifications, accepts exactly the well-typed ones, reports the rule\'s type and blames the offending operand', 14)
+    rep.note('typing_rule_cases', typing_rules(db, r9, rep.tier if hasattr(rep, 'tier') else 'quick'))
+
 
 def _kinds(db, r5):
     S = 'ccl::semantic::'
@@ -836,7 +839,7 @@ def type_hooks(db):
                 return T(ZT)
             if last == 'Tuple':
                 comps = it.eval(fn, S[n['args'][0]], env)
-                return T(('t', tuple(c['v'] for c in comps)))
+                return T(comps[0]['v']) if len(comps) == 1 else T(('t', tuple(c['v'] for c in comps)))
             o = obj()
             if isinstance(o, Obj) and o.get('__kind__') == 'typ':
                 v = o['v']
@@ -943,3 +946,290 @@ def type_algebra(db, rule):
             rule.violation(name, '%s:%d' % (f.file, f.line), bad[name])
         else:
             rule.ok(name, 'agrees with the specificity order on %d type pairs' % cnt, '%s:%d' % (f.file, f.line))
+
+
+# ---------------------------------------------------------------------------------------------------------------- typing rules
+# The typing rules of the set-theoretic constructs as a reference over type terms (D = debool: the element type of a set type; lub = most
+# specific common type; EMPTY = B(R0) the type of the empty set).  ('ok', type) | ('ok', 'LOGIC') | ('err', index of the operand reported).
+EMPTY = ('b', ANY)
+
+
+def _D(t):
+    if t == ANY:
+        return ANY
+    return t[1] if t[0] == 'b' else None
+
+
+def _tuple(ts):
+    return ts[0] if len(ts) == 1 else ('t', tuple(ts))
+
+
+def _arith(t):
+    return t[0] == 'e' and (t == ZT or t[1].startswith('C'))
+
+
+def _ref_rule(name, tok, ts, idx):
+    """expected verdict of TypeAuditor::<name> for operand types ts (idx: projection/filter indices)"""
+    if name == 'ViSetexprBinary':
+        a, b = _D(ts[0]), _D(ts[1])
+        if a is None:
+            return ('err', 0)
+        if b is None:
+            return ('err', 1)
+        m = _lub(a, b)
+        return ('ok', ('b', m)) if m is not None else ('err', 1)
+    if name == 'ViDecart':
+        ds = []
+        for i, t in enumerate(ts):
+            d = _D(t)
+            if d is None:
+                return ('err', i)
+            ds.append(d)
+        return ('ok', ('b', _tuple(ds)))
+    if name == 'ViBoolean':
+        d = _D(ts[0])
+        return ('ok', ('b', ('b', d))) if d is not None else ('err', 0)
+    if name == 'ViTuple':
+        return ('ok', _tuple(list(ts)))
+    if name in ('ViEnumeration', 'ViBool'):
+        m = ts[0]
+        for i, t in enumerate(ts[1:], 1):
+            m = _lub(m, t)
+            if m is None:
+                return ('err', i)
+        return ('ok', ('b', m))
+    if name == 'ViDebool':
+        d = _D(ts[0])
+        return ('ok', d) if d is not None else ('err', 0)
+    if name == 'ViCard':
+        return ('ok', ZT) if _D(ts[0]) is not None else ('err', 0)
+    if name == 'ViReduce':
+        a = ts[0]
+        if a == ANY or a == EMPTY:
+            return ('ok', EMPTY)
+        if a[0] == 'b' and a[1][0] == 'b':
+            return ('ok', a[1])
+        return ('err', 0)
+    if name == 'ViProjectSet':
+        d = _D(ts[0])
+        if d is None:
+            return ('err', 0)
+        if d == ANY:
+            return ('ok', EMPTY)
+        if d[0] != 't' or any(not (1 <= i <= len(d[1])) for i in idx):
+            return ('err', 0)
+        return ('ok', ('b', _tuple([d[1][i - 1] for i in idx])))
+    if name == 'ViProjectTuple':
+        a = ts[0]
+        if a == ANY:
+            return ('ok', ANY)
+        if a[0] != 't' or any(not (1 <= i <= len(a[1])) for i in idx):
+            return ('err', 0)
+        return ('ok', _tuple([a[1][i - 1] for i in idx]))
+    if name == 'ViArithmetic':
+        for i in (0, 1):
+            if not _arith(ts[i]):
+                return ('err', i)
+        m = _lub(ts[0], ts[1])
+        return ('ok', m) if m is not None else ('err', 1)
+    if name == 'ViIntegerPredicate':
+        for i in (0, 1):
+            if not _arith(ts[i]):
+                return ('err', i)
+        return ('ok', 'LOGIC') if _lub(ts[0], ts[1]) is not None else ('err', 1)
+    if name == 'ViEquals':
+        return ('ok', 'LOGIC') if _lub(ts[0], ts[1]) is not None else ('err', 1)
+    if name == 'ViSetexprPredicate':
+        d = _D(ts[1])
+        if d is None:
+            return ('err', 1)
+        right = ('b', d) if tok in ('SUBSET', 'SUBSET_OR_EQ', 'NOTSUBSET') else d
+        return ('ok', 'LOGIC') if _lub(ts[0], right) is not None else ('err', 1)
+    if name == 'ViFilter':
+        arg = ts[-1]
+        params = ts[:-1]
+        tuple_param = len(idx) == len(params)
+        if not tuple_param and len(ts) > 2:
+            return ('err', 'self')
+        if arg == ANY or arg == EMPTY:
+            return ('ok', EMPTY)
+        if arg[0] != 'b' or arg[1][0] != 't' or any(not (1 <= i <= len(arg[1][1])) for i in idx):
+            return ('err', len(ts) - 1)
+        bases = [arg[1][1][i - 1] for i in idx]
+        if tuple_param:
+            for i, p in enumerate(params):
+                if p[0] != 'b' or _lub(bases[i], p[1]) is None:
+                    return ('err', i)
+        else:
+            p = params[0]
+            if p[0] != 'b' or _lub(('b', _tuple(bases)), p) is None:
+                return ('err', 0)
+        return ('ok', arg)
+    raise AnalysisBroken('no reference rule for %s' % name)
+
+
+TYPING_CASES = [   # (method, token kinds it is dispatched for, operand counts, index lists)
+    ('ViSetexprBinary', ['UNION', 'INTERSECTION', 'SET_MINUS', 'SYMMINUS'], (2,), [None]),
+    ('ViDecart', ['DECART'], (2, 3), [None]),
+    ('ViBoolean', ['BOOLEAN'], (1,), [None]),
+    ('ViTuple', ['NT_TUPLE'], (2, 3), [None]),
+    ('ViEnumeration', ['NT_ENUMERATION'], (1, 2, 3), [None]),
+    ('ViBool', ['BOOL'], (1,), [None]),
+    ('ViDebool', ['DEBOOL'], (1,), [None]),
+    ('ViCard', ['CARD'], (1,), [None]),
+    ('ViReduce', ['REDUCE'], (1,), [None]),
+    ('ViProjectSet', ['BIGPR'], (1,), [[1], [2], [3], [1, 2], [2, 1], [1, 3]]),
+    ('ViProjectTuple', ['SMALLPR'], (1,), [[1], [2], [3], [1, 2], [2, 1]]),
+    ('ViArithmetic', ['PLUS', 'MINUS', 'MULTIPLY'], (2,), [None]),
+    ('ViIntegerPredicate', ['GREATER', 'LESSER', 'GREATER_OR_EQ', 'LESSER_OR_EQ'], (2,), [None]),
+    ('ViEquals', ['EQUAL', 'NOTEQUAL'], (2,), [None]),
+    ('ViSetexprPredicate', ['IN', 'NOTIN', 'SUBSET', 'SUBSET_OR_EQ', 'NOTSUBSET'], (2,), [None]),
+    ('ViFilter', ['FILTER'], (2, 3), [[1], [2], [1, 2], [2, 1], [3]]),
+]
+
+
+def _small_universe():
+    X1, X2, C1 = ('e', 'X1'), ('e', 'X2'), ('e', 'C1')
+    B = lambda t: ('b', t)
+    P = lambda *ts: ('t', tuple(ts))
+    return [ANY, ZT, C1, X1, X2, B(ANY), B(ZT), B(C1), B(X1), B(X2), B(B(X1)), B(B(ANY)), P(X1, X2), P(X1, ANY), P(ZT, C1), B(P(X1, X2)), B(P(X1, ANY)), B(P(ANY, X2)),
+            B(B(P(X1, X2))), P(P(X1, X2), ZT), B(P(P(X1, X2), ZT)), B(P(X1, X2, ZT)), P(B(X1), B(X2))]
+
+
+def typing_rules(db, rule, tier='quick'):
+    import itertools
+    from engine.evalmini import Obj, NOT_HANDLED
+    T, base_hook = type_hooks(db)
+    TA = R + 'TypeAuditor'
+    TOK = enum_values(db, R + 'TokenID')
+    EID = {v: k for k, v in enum_values(db, R + 'SemanticEID').items()}
+    methods = {f.name.split('::')[-1]: f for f in db.methods_of(TA) if f.has_cfg() and [p for p in f.rec['params'] if 'Cursor' in p['type']]}
+    U = _universe() if tier == 'thorough' else _small_universe()
+    U3 = _small_universe()[:10]
+
+    def run(f, tok, ts, idx):
+        log = []
+        this = Obj(currentType=None, env=Obj(context=Obj()), noWarnings=Obj(value=False, guardCounter=0), reporter=None)
+
+        def on_call(it, fn, n, env):
+            cs = n.get('cs') or ''
+            last = cs.split('::')[-1]
+            S = fn.stmts
+            if last == 'ChildType' and cs.startswith(TA) and len(n.get('args', [])) == 2:
+                i = it.eval(fn, S[n['args'][1]], env)
+                if not (0 <= i < len(ts)):
+                    raise OutOfFragment('child %s of %d' % (i, len(ts)))
+                v = T(ts[i])
+                this['currentType'] = v
+                return v
+            if last == 'OnError' and cs.startswith(TA):
+                args = [it.eval(fn, S[a], env) for a in n['args'][:2]]
+                log.append((EID.get(args[0], args[0]), args[1]))
+                return None
+            if last == 'ChildrenCount':
+                return len(ts)
+            if last == 'SetCurrent' and cs.startswith(TA):
+                v = it.eval(fn, S[n['args'][0]], env)
+                this['currentType'] = v
+                return True
+            if n['k'] == 'CXXOperatorCallExpr' and n.get('op') == '()' and 'Cursor' in S[n['args'][0]].get('t', ''):
+                return Obj(pos=Obj(start=1000 * (it.eval(fn, S[n['args'][1]], env) + 1), finish=0), id=0, data=Obj())
+            if n['k'] == 'CXXOperatorCallExpr' and n.get('op') == '->' and 'Cursor' in S[n['args'][0]].get('t', ''):
+                return ('ptr', Obj(pos=Obj(start=0, finish=0), id=TOK[tok], data=Obj(__kind__='data')))
+            if cs in ('std::holds_alternative', 'std::get') and n.get('args'):
+                v = it.eval(fn, S[n['args'][0]], env)
+                is_t = isinstance(v, Obj) and v.get('__kind__') == 'typ'
+                want_t = 'Typification' in (n.get('targs') or [''])[0]
+                if cs == 'std::holds_alternative':
+                    return is_t if want_t else v == 'LOGIC'
+                if is_t != want_t:
+                    raise OutOfFragment('std::get on the wrong alternative (bad_variant_access) at %s' % fn.loc(n))
+                return v
+            if last == 'ToTuple':
+                return list(idx or [])
+            if last in ('ToString',) and not cs.startswith('std::'):
+                return b'?'
+            if cs.endswith('LogicT::LogicT') or (n['k'] in ('CXXConstructExpr', 'CXXTemporaryObjectExpr', 'InitListExpr') and n.get('t', '').endswith('LogicT')):
+                return 'LOGIC'
+            if cs.startswith(R + 'Typification::') or cs.startswith(R + 'Structured') or cs.startswith(R + 'Echelon'):
+                if last == 'EmptySet':
+                    return T(EMPTY)
+                if last in ('Bool', 'ApplyBool') and 'obj' in n:
+                    o = it.eval(fn, S[n['obj']], env)
+                    if isinstance(o, tuple) and len(o) == 2 and o[0] == 'ptr':
+                        o = o[1]
+                    if isinstance(o, Obj) and o.get('__kind__') == 'typ':
+                        if last == 'Bool':
+                            return T(('b', o['v']))
+                        o['v'] = ('b', o['v'])
+                        return o
+                if last == 'TestIndex' and 'obj' in n:
+                    o = it.eval(fn, S[n['obj']], env)
+                    i = it.eval(fn, S[n['args'][0]], env)
+                    return 1 <= i <= len(o['v'][1])
+                if n['k'] in ('CXXConstructExpr', 'CXXTemporaryObjectExpr') and n.get('args'):
+                    a = it.eval(fn, S[n['args'][0]], env)      # copy / move of a typification
+                    if isinstance(a, Obj) and a.get('__kind__') == 'typ':
+                        return T(a['v'])
+            r = base_hook(it, fn, n, env)
+            return r
+        it = Interp(db, on_call=on_call, max_steps=400000)
+        ok = it.call(f, [Obj(__kind__='cursor')], this)
+        cur = this['currentType']
+        if isinstance(cur, Obj) and cur.get('__kind__') == 'typ':
+            cur = cur['v']
+        elif cur is not None:
+            cur = 'LOGIC'          # the only other alternative of ExpressionType (LogicT{} evaluates to an empty aggregate)
+        return bool(ok), cur, log
+
+    def show(x):
+        return 'LOGIC' if x == 'LOGIC' else _show_t(x)
+    total = 0
+    for name, toks, arities, idxs in TYPING_CASES:
+        f = methods.get(name)
+        if f is None:
+            rule.broken('anchor vanished: TypeAuditor::%s' % name)
+            continue
+        bad = None
+        cases = 0
+        try:
+            for tok in (toks if name == 'ViSetexprPredicate' else toks[:1]):
+                for n_ops in arities:
+                    pool = U if n_ops <= 2 else U3
+                    for ts in itertools.product(pool, repeat=n_ops):
+                        for idx in idxs:
+                            cases += 1
+                            want = _ref_rule(name, tok, list(ts), idx)
+                            ok, cur, log = run(f, tok, list(ts), idx)
+                            desc = '%s(%s)%s' % (tok, ', '.join(_show_t(t) for t in ts), (' indices %s' % idx) if idx else '')
+                            if want[0] == 'ok':
+                                if not ok:
+                                    bad = bad or '%s is well-typed (%s) but is rejected with %s' % (desc, show(want[1]), [e for e, _ in log])
+                                elif cur != want[1]:
+                                    bad = bad or '%s is given type %s; the typing rule gives %s' % (desc, show(cur), show(want[1]))
+                                elif log:
+                                    bad = bad or '%s is accepted but an error was logged: %s' % (desc, log)
+                            else:
+                                if ok:
+                                    bad = bad or '%s is ill-typed but is accepted with type %s' % (desc, show(cur))
+                                elif not log:
+                                    bad = bad or '%s is rejected without an error' % desc
+                                elif isinstance(log[0][1], int) and (('self' if log[0][1] < 1000 else log[0][1] // 1000 - 1) != want[1]):
+                                    bad = bad or '%s: the error is reported at %s, the offending operand is child %s' % (desc, 'the construct itself' if log[0][1] < 1000 else 'child %d' % (log[0][1] // 1000 - 1), want[1])
+                            if bad:
+                                break
+                        if bad:
+                            break
+                    if bad:
+                        break
+                if bad:
+                    break
+        except OutOfFragment as e:
+            rule.broken('TypeAuditor::%s outside the evaluable fragment: %s' % (name, e))
+            continue
+        total += cases
+        if bad:
+            rule.violation(name, '%s:%d' % (f.file, f.line), bad)
+        else:
+            rule.ok(name, 'agrees with the typing rule on %d operand-type vectors' % cases, '%s:%d' % (f.file, f.line))
+    return total
